@@ -647,6 +647,7 @@ class Verifier:
         impl_fn = self.resolve(self.impl_prog, job.impl)
         ref_fn = self.resolve(self.ref_prog, job.ref) if job.ref is not None else None
         self.open_cuts = {}
+        self.cut_repolls = {}
         self.seen_keys = {}
         self.seen_akeys = {}
         self.loop_counts = {}
@@ -1682,10 +1683,20 @@ class Verifier:
             ctx.assume(mk(new_terms, entry))
         self.assume_state_invariant(ctx, key)
         self.open_cuts[key] = entry
+        self.cut_repolls[key] = dict(getattr(ctx, "repolls_by_side", {"impl": 0, "ref": 0}))
         if self.final:
             self.result.invariants[f"L{key[0][0]}#{len(self.result.invariants)}"] = sorted(cands)
 
     def cut_step(self, ctx, key, w):
+        # A5 tolerates a finished source being polled again, which CPython and the pinned tree both do *once* in places.
+        # A loop body that runs from this cut point back to it and polls a finished source more often than the
+        # reference does, polls it on EVERY iteration: an unbounded number of pulls the stdlib never makes (C05)
+        if self.final and self.job.ref is not None:
+            now = getattr(ctx, "repolls_by_side", {"impl": 0, "ref": 0})
+            was = self.cut_repolls.get(key, {"impl": 0, "ref": 0})
+            extra = (now["impl"] - was["impl"]) - (now["ref"] - was["ref"])
+            self.result.record(f"{self.job.name}/repoll/L{key[0][0]}/no-repoll-of-a-finished-source-per-iteration", "repoll", extra <= 0,
+                               detail="every iteration of this loop pulls a source that has already ended (the reference does not)", trace=list(self.trace))
         self.check_state_invariant(ctx, key, "at the cut point")
         terms = {s.path: s.get() for s in w.slots}
         entry = self.open_cuts[key]
